@@ -9,19 +9,28 @@ MkTree(dirs, files) ==
 MCImports == [c \in 0..20 |->
                 CASE c = 2 -> { <<"a">> }
                   [] c = 3 -> { <<"pkg">>, <<"pkg", "b">> }
+                  [] c = 5 -> { <<"q">>, <<"q", "b">> }
+                  [] c = 6 -> { <<"a">> }
                   [] OTHER -> {}]
 
 C1 == MkTree({<<"pkg">>}, (<<"a">> :> 1) @@ (<<"b">> :> 2) @@ (<<"pkg","i">> :> 0) @@ (<<"pkg","b">> :> 4))
 C2 == MkTree({<<"pkg">>}, (<<"a">> :> 3) @@ (<<"pkg","b">> :> 1))
 C3 == MkTree({}, (<<"b">> :> 2))
-MCInitTreesC == {C1, C2, C3}
+\* 6: "from a import *; x = K" - a star import whose names come and go with a's content
+C6 == MkTree({}, (<<"a">> :> 4) @@ (<<"b">> :> 6))
+MCInitTreesC == {C1, C2, C3, C6}
+\* two packages: a module can be moved from one package into the other
+C4 == MkTree({<<"pkg">>, <<"q">>}, (<<"a">> :> 3) @@ (<<"b">> :> 5) @@ (<<"pkg","b">> :> 1) @@ (<<"q","i">> :> 0))
+C5 == MkTree({<<"pkg">>, <<"q">>}, (<<"a">> :> 5) @@ (<<"pkg","b">> :> 4) @@ (<<"pkg","i">> :> 0))
+MCInitTreesC2 == {C4, C5}
+MCUniverse2 == { <<"a">>, <<"b">>, <<"pkg">>, <<"q">>, <<"pkg","b">>, <<"q","b">> }
 
 MCUniverse == { <<"a">>, <<"b">>, <<"pkg">>, <<"pkg","i">>, <<"pkg","b">> }
 
 \* one behaviour per state: the actions that led here and what the spec says
 \* about this state (the harness compares warm vs fresh answers here)
 Behaviour == [trail |-> trail, tree |-> TreePairs(tree), quiet |-> (ext = {}),
-              stale |-> StaleNegative,
+              stale |-> StaleNegative, rootsChanged |-> (Cardinality(rootsSeen) > 1),
               cached |-> { p \in Paths : Cached(p) }, filesValid |-> filesValid]
 Export == (Len(trail) >= 1) => PrintT(<<"BEH", ToJson(Behaviour)>>)
 =============================================================================
